@@ -500,3 +500,8 @@ T("C13", UT, _TF_OLD, "            except BaseException:\n                os.unl
 _CP = "    def __copy__(self):\n"
 M("C05", "C05-PICKLE", DT, _CP, "    def __reduce__(self):\n        return (self.__class__, (self._t_bmjd, self.rv, self.rv_err, self.t_ref))\n\n" + _CP, "RVData.__reduce__ loses a disabled reference epoch in worker processes")
 T("C05", DT, _CP, "    def __reduce__(self):\n        return (self.__class__, (self._t_bmjd, self.rv, self.rv_err, False if self.t_ref is None else self.t_ref))\n\n" + _CP, "RVData.__reduce__ that keeps the reference epoch")
+
+# ---------------------------------------------------------------- C17-META receiving side
+M("C17", "C17-META", SM, '            poly_trend = meta.pop("poly_trend", poly_trend)\n', '            _pt = meta.pop("poly_trend", None)\n            poly_trend = _pt if poly_trend is None else poly_trend\n', "table's poly_trend ignored because the argument was already defaulted")
+M("C17", "C17-META", SM, '            n_offsets = meta.pop("n_offsets", n_offsets)\n', '            meta.pop("n_offsets", None)\n', "table's n_offsets dropped")
+T("C17", SM, '            poly_trend = meta.pop("poly_trend", poly_trend)\n', '            table_poly_trend = meta.pop("poly_trend", poly_trend)\n            poly_trend = table_poly_trend\n', "popped value through a temporary")
